@@ -53,7 +53,8 @@ def gen_case(rnd):
     # a wrapper that has no *args / **kwargs at all may still be declared with use_varargs=False /
     # use_varkwargs=False: a redundant way of saying the same thing
     return dict(o=o, i=i, n=n, names=names, pass_va=pass_va, pass_vk=pass_vk, hide_args=hide_args,
-                hide_kwargs=hide_kwargs, partial=partial, form=form, redundant_flags=rnd.random() < 0.5)
+                hide_kwargs=hide_kwargs, partial=partial, form=form, redundant_flags=rnd.random() < 0.5,
+                falsy=rnd.choice((0, 0, 1, 2)))
 
 
 def foreign_values(c):
@@ -119,6 +120,11 @@ def decl_args(c, lead=()):
     return parts, flags
 
 
+# instances may be falsy (an empty container, __bool__ returning False): "is there an instance" is an identity
+# question, never a truth value
+FALSY = ['', '    def __len__(self): return 0\n', '    def __bool__(self): return False\n']
+
+
 def build_source(c, inner_params=None):
     form = c['form']
     o, i = c['o'], (inner_params or c['i'])
@@ -154,6 +160,7 @@ def build_source(c, inner_params=None):
             src += 'class A(object):\n    def inner(%s): return None\n' % selfi
         src += '    @specifiers.forwards_to_method(%s)\n' % ', '.join(parts + flags)
         src += '    def w(%s):\n        return %s\n' % (selfo, call_text(c, callee))
+        src += FALSY[c.get('falsy', 0)]
         src += 'obj = A()\ntarget = obj.w\nunbound = A.w\n'
     elif form in ('super', 'super-emulate'):
         parts, flags = decl_args(c)
@@ -162,6 +169,7 @@ def build_source(c, inner_params=None):
         src = head + 'class B(object):\n    def w(%s): return None\n' % selfi
         src += 'class A(B):\n    @specifiers.forwards_to_super(%s)\n' % ', '.join(parts + flags)
         src += '    def w(%s):\n        return %s\n' % (selfo, call_text(c, 'super().w'))
+        src += FALSY[c.get('falsy', 0)]
         src += 'obj = A()\ntarget = obj.w\nunbound = A.w\n'
     else:   # apply-super
         parts, flags = decl_args(c)
@@ -169,6 +177,7 @@ def build_source(c, inner_params=None):
         src = head + 'class B(object):\n    def w(%s): return None\n' % selfi
         src += "@specifiers.apply_forwards_to_super('w', %s)\n" % ', '.join(kw)
         src += 'class A(B):\n    def w(%s):\n        return %s\n' % (selfo, call_text(c, 'super(A, self).w'))
+        src += FALSY[c.get('falsy', 0)]
         src += 'obj = A()\ntarget = obj.w\nunbound = A.w\n'
     return src
 
